@@ -2,8 +2,9 @@
 # L1: argument checking of the public API (core Lean only)
 
 Shards are described by their *shape* only: nil / length / capacity.  Every slice or array index
-the Go code computes from caller-controlled values is performed here with an explicit bounds
-check whose failure is the outcome `panic`, so "never panics" is a theorem with content.
+the Go code computes from caller-controlled values — in the argument checks AND in the kernels the
+checked arguments are handed to — is performed here with an explicit bounds check whose failure is
+the outcome `panic`, so "never panics" is a theorem with content: the checks are sufficient.
 Mirrors the code after the `fix:` commits (7b8525f, 0ba1869, 674193f, d4cd075, 33b1873, eef0134,
 40188d9, a37e7db, 6e0b732, bd2a6b4).
 -/
@@ -44,19 +45,157 @@ def checkShards (s : List Sh) (nilok : Bool) : Option E :=
 
 def leoK (k : Kind) : Bool := k ≠ .rs8
 
-/-- `Encode` / `Verify` (same checks) -/
+/-- explicit slice index: `none` = index out of range = panic -/
+def idx? {α : Type} (l : List α) (i : Nat) : Option α := l[i]?
+
+/-! ### the slice expressions of the kernels, on shapes
+
+The operations below first check their arguments and then hand the shards to kernels that slice them
+(`[start:stop]` windows, `[0:shardSize]` reslices).  Those slice expressions are evaluated here on the
+shapes; one of them out of range is the outcome `panic`.  A slice expression that reaches beyond
+`len` counts as out of range where Go reads or writes the bytes (Go's run-time check compares with
+`cap ≥ len`; the assembler kernels do not check at all); a reslice that Go itself guards with
+`cap(x) >= n` is evaluated against `cap`.  Indices into tables that depend only on the encoder
+(`r.parity[i][c]`, the Leopard skew tables, the work buffers) are not the subject here: see `usable`. -/
+
+/-- `codeSomeShards(matrixRows, inputs, outputs, byteCount)` and its variants (`codeSomeShardsP`, the
+generated kernels `galMulGen(m, inputs, outputs, start, stop)`), on the lengths of the inputs and
+outputs: `true` = some slice expression is out of range.
+* `if len(outputs) == 0 { return }`;
+* serial: `end ≤ len(inputs[0])` and `inputs[c][start:end]`, `outputs[iRow][start:end]` for every `c`, `iRow`;
+* goroutines / generated kernels: windows `[start:stop]` with `stop ≤ byteCount` on every input and output.
+Which variant runs depends on the options and the CPU, so either failing counts. -/
+def codeOob (inputs outputs : List Nat) (byteCount : Nat) : Bool :=
+  if outputs.isEmpty then false
+  else match inputs with
+    | [] => true                                                   -- `len(inputs[0])`
+    | in0 :: _ =>
+      inputs.any (fun l => l < in0 || l < byteCount) || outputs.any (fun l => l < in0 || l < byteCount)
+
+/-- `if cap(sh) >= size { sh = sh[0:size] } else { sh = <new buffer of size bytes> }`:
+the reslice is out of range iff it is executed with `size > cap(sh)` -/
+def resliceOob (x : Sh) (size : Nat) : Bool := if x.cap ≥ size then decide (x.cap < size) else false
+
+/-- Leopard `encode` (GF(2^8): chunks `shards[i][off:end]` of every shard and `res[i][off:end]` of
+every parity shard, `end ≤ shardSize`; GF(2^16): whole data shards against work buffers of `shardSize`
+bytes): a shard shorter than `shardSize` is out of range. -/
+def leoEncodeOob (s : List Sh) : Bool := s.any fun x => x.len < shardSize s
+
+/-- `Encode`.  Matrix codec: `codeSomeShards(r.parity, shards[0:d], shards[d:][:p], len(shards[0]))`. -/
 def encode (k : Kind) (d p : Nat) (s : List Sh) : Outcome :=
   if s.length ≠ d + p then .err .tooFewShards
   else match checkShards s false with
     | some e => .err e
-    | none => if leoK k && shardSize s % 64 ≠ 0 then .err .invalidShardSize else .ok
+    | none =>
+      if leoK k then
+        if shardSize s % 64 ≠ 0 then .err .invalidShardSize
+        else if leoEncodeOob s then .panic else .ok
+      -- `shards[d:]`, `output[:p]`, `shards[0:d]`
+      else if s.length < d || s.length - d < p then .panic
+      else match idx? s 0 with                                     -- `len(shards[0])`
+        | none => .panic
+        | some s0 =>
+          if codeOob ((s.take d).map (·.len)) (((s.drop d).take p).map (·.len)) s0.len then .panic
+          else .ok
+
+/-- `Verify`: the same checks; the parity is recomputed into NEW buffers of `len(shards[0])` bytes
+(matrix codec: `checkSomeShards` → `AllocAligned(p, byteCount)`; Leopard: `outputs[i] = make([]byte,
+shardSize)` for the parity positions, then `r.Encode(outputs)`) and compared with `bytes.Equal`.
+`C16_verify_eq_encode`: the same outcome as `encode` for every encoder `New` returns. -/
+def verify (k : Kind) (d p : Nat) (s : List Sh) : Outcome :=
+  if s.length ≠ d + p then .err .tooFewShards
+  else match checkShards s false with
+    | some e => .err e
+    | none =>
+      match idx? s 0 with                                          -- `len(shards[0])`
+      | none => .panic
+      | some s0 =>
+        if leoK k then
+          -- `copy(outputs, shards[:d])`
+          if s.length < d then .panic
+          else encode k d p (s.take d ++ List.replicate p ⟨false, s0.len, s0.len⟩)
+        -- `shards[d:]`, `toCheck[:p]`, `shards[:d]`
+        else if s.length < d || s.length - d < p then .panic
+        else if codeOob ((s.take d).map (·.len)) (List.replicate p s0.len) s0.len then .panic
+        else .ok
 
 inductive RMode where
   | all | data | some (required : Option (List Bool))   -- `none` = a nil mask
 deriving Repr, DecidableEq
 
-/-- explicit slice index: `none` = index out of range = panic -/
-def idx? {α : Type} (l : List α) (i : Nat) : Option α := l[i]?
+/-- `shards[i]` (a position outside the list reads as nil; the callers index below `len(shards)`) -/
+def shAt (s : List Sh) (i : Nat) : Sh := s.getD i ⟨true, 0, 0⟩
+
+/-- `len(shards[i]) != 0` -/
+def presentAt (s : List Sh) (i : Nat) : Bool := (shAt s i).len ≠ 0
+
+/-- `required == nil || required[i]` (the index itself is checked by `decodeIdxOk` / `parityIdxOk`) -/
+def reqAt (required : Option (List Bool)) (i : Nat) : Bool :=
+  match required with
+  | none => true
+  | some l => l.getD i false
+
+/-- `parityRequired` of the matrix codec's `reconstruct`: the counting loop saw a missing parity
+shard that the mask asks for (fix 7b8525f) -/
+def rsParityRequired (d p : Nat) (s : List Sh) (required : Option (List Bool)) : Bool :=
+  match required with
+  | none => false
+  | some l => (List.range (d + p)).any fun i => !presentAt s i && i < l.length && l.getD i false && d ≤ i
+
+/-- first pass: data shard `i` is an output iff
+`len(shards[i]) == 0 && (required == nil || required[i] || parityRequired && !dataOnly)` -/
+def rsRegen (d p : Nat) (s : List Sh) (dataOnly : Bool) (required : Option (List Bool)) (i : Nat) : Bool :=
+  !presentAt s i && (reqAt required i || (rsParityRequired d p s required && !dataOnly))
+
+/-- First coding pass of the matrix codec's `reconstruct` (after the argument checks, the counting loop
+and `numberPresent ≥ d`): `true` = some index or slice expression is out of range.  `regen i` = data
+shard `i` is an output of this pass.  Every output is
+resliced (`cap(shards[i]) >= shardSize` → `shards[i][0:shardSize]`) or allocated, and stored at
+`outputs[outputCount]` (`outputs := make([][]byte, p)`); then
+`codeSomeShards(matrixRows, subShards, outputs[:outputCount], shardSize)` with `subShards` = the
+first `d` shards that have data (`make([][]byte, d)`: entries never assigned are nil). -/
+def rsPass1Oob (d p : Nat) (s : List Sh) (regen : Nat → Bool) : Bool :=
+  let size := shardSize s
+  let out1 := (List.range d).filter regen
+  let sub := ((List.range (d + p)).filter (presentAt s)).take d
+  let subLens := sub.map (fun i => (shAt s i).len) ++ List.replicate (d - sub.length) 0
+  p < out1.length
+    || out1.any (fun i => resliceOob (shAt s i) size)
+    || codeOob subLens (List.replicate out1.length size) size
+
+/-- Second coding pass (not `dataOnly`; `regen` = the outputs of the first pass): the parity shards `d+j` with
+`len == 0 && (required == nil || required[d+j])` are resliced or allocated and are the outputs of
+`codeSomeShards(matrixRows, shards[:d], outputs[:outputCount], shardSize)`, which reads ALL data
+shards: those that had data, those the first pass regenerated (`shardSize` bytes now) — and those it
+did not, which are still empty.  Before fix 7b8525f the first pass did not know `parityRequired`. -/
+def rsPass2Oob (d p : Nat) (s : List Sh) (required : Option (List Bool)) (regen : Nat → Bool) : Bool :=
+  let size := shardSize s
+  let out2 := (List.range p).filter fun j => !presentAt s (d + j) && reqAt required (d + j)
+  let dataLens := (List.range d).map fun i =>
+    if presentAt s i then (shAt s i).len else if regen i then size else 0
+  p < out2.length
+    || out2.any (fun j => resliceOob (shAt s (d + j)) size)
+    || codeOob dataLens (List.replicate out2.length size) size
+
+/-- the two coding passes of the matrix codec's `reconstruct`, `regen` = the outputs of the first -/
+def rsReconOob (d p : Nat) (s : List Sh) (dataOnly : Bool) (required : Option (List Bool)) : Bool :=
+  let regen := rsRegen d p s dataOnly required
+  rsPass1Oob d p s regen || (!dataOnly && rsPass2Oob d p s required regen)
+
+/-- Leopard `reconstruct` after the checks (`recoverAll` = also the parity shards).  A missing shard
+`i` with `recoverAll || i < d` is resliced (`cap(sh) >= shardSize` → `sh[:shardSize]`) or allocated;
+GF(2^8) then works on chunks `shards[i][off:endSlice]`, `endSlice ≤ shardSize`, of every shard that
+had data, and writes the chunks `shards[i][off:endSlice]` of the missing shards `i < end`
+(`end = d`, or `d + p` when `recoverAll`); GF(2^16) does the same on whole shards against work
+buffers of `shardSize` bytes. -/
+def leoReconOob (d p : Nat) (s : List Sh) (recoverAll : Bool) : Bool :=
+  let size := shardSize s
+  let fin := if recoverAll then d + p else d
+  let regen (i : Nat) : Bool := !presentAt s i && (recoverAll || i < d)
+  let newLen (i : Nat) : Nat := if presentAt s i then (shAt s i).len else if regen i then size else 0
+  (List.range (d + p)).any (fun i => regen i && resliceOob (shAt s i) size)
+    || (List.range (d + p)).any (fun i => presentAt s i && (shAt s i).len < size)
+    || (List.range fin).any (fun i => !presentAt s i && newLen i < size)
 
 /-- `Reconstruct*`.  For the matrix codec the `required` mask is indexed at every missing shard
 position `i < d+p` in the counting loop (guarded by `i < len(required)` since 7b8525f) and at
@@ -75,11 +214,13 @@ def reconstruct (k : Kind) (d p : Nat) (s : List Sh) (m : RMode) : Outcome :=
         let present (i : Nat) : Bool := (s.getD i ⟨true, 0, 0⟩).len ≠ 0
         let numberPresent := ((List.range (d + p)).filter present).length
         let dataPresent := ((List.range d).filter present).length
-        -- counting loop: required[i] is read only when i < len(required)
+        -- counting loop: `shards[i]` for i < d+p; required[i] is read only when i < len(required)
+        let shardIdxOk := (List.range (d + p)).all fun i => (idx? s i).isSome
         let missingRequired := match required with
           | none => 0
           | some l => ((List.range (d + p)).filter fun i => !present i && i < l.length && l.getD i false).length
-        if numberPresent = d + p || (dataOnly && dataPresent = d) || (required.isSome && missingRequired = 0) then .ok
+        if !shardIdxOk then .panic
+        else if numberPresent = d + p || (dataOnly && dataPresent = d) || (required.isSome && missingRequired = 0) then .ok
         else if numberPresent < d then .err .tooFewShards
         else
           -- decode loop: `required[iShard]` for iShard < d — in range because len(required) ≥ d
@@ -90,7 +231,10 @@ def reconstruct (k : Kind) (d p : Nat) (s : List Sh) (m : RMode) : Outcome :=
           let parityIdxOk := dataOnly || (match required with
             | none => true
             | some l => (List.range p).all fun j => (idx? l (d + j)).isSome)
-          if decodeIdxOk && parityIdxOk then .ok else .panic
+          if decodeIdxOk && parityIdxOk then
+            -- the two coding passes
+            if rsReconOob d p s dataOnly required then .panic else .ok
+          else .panic
   | _ =>
     -- Leopard: the mask only selects recoverAll
     if s.length ≠ d + p then .err .tooFewShards
@@ -103,9 +247,13 @@ def reconstruct (k : Kind) (d p : Nat) (s : List Sh) (m : RMode) : Outcome :=
         let present (i : Nat) : Bool := (s.getD i ⟨true, 0, 0⟩).len ≠ 0
         let numberPresent := ((List.range (d + p)).filter present).length
         let dataPresent := ((List.range d).filter present).length
-        if numberPresent = d + p || (!recoverAll && dataPresent = d) then .ok
+        -- counting loop: `shards[i]` for i < d+p
+        let shardIdxOk := (List.range (d + p)).all fun i => (idx? s i).isSome
+        if !shardIdxOk then .panic
+        else if numberPresent = d + p || (!recoverAll && dataPresent = d) then .ok
         else if numberPresent < d then .err .tooFewShards
         else if shardSize s % 64 ≠ 0 then .err .invalidShardSize
+        else if leoReconOob d p s recoverAll then .panic
         else .ok
 
 /-- `EncodeIdx(dataShard, idx, parity)`; `idx` is any integer -/
@@ -119,7 +267,14 @@ def encodeIdx (k : Kind) (d p : Nat) (dataLen : Nat) (idx : Int) (parity : List 
     | none =>
       match idx? parity 0 with
       | none => .panic
-      | some p0 => if p0.len ≠ dataLen then .err .shardSize else .ok
+      | some p0 =>
+        if p0.len ≠ dataLen then .err .shardSize
+        -- `r.parity[iRow][idx]` (`[idx : idx+1]` for the generated kernels): a row has `d` coefficients
+        else if idx < 0 || (d : Int) < idx + 1 then .panic
+        -- `dataShard[start:end]` with `end ≤ len(dataShard)` and `parity[iRow][start:end]` for every row
+        -- (generated kernels: `codeSomeShardsAVXP(m, [dataShard], parity, len(dataShard), …)`)
+        else if parity.any (fun x => x.len < dataLen) then .panic
+        else .ok
 
 /-- The one fact about Go slices that the record `Sh` does not enforce and that `Update` needs: a nil
 slice has length 0.  (`Update` tests `newDatashards[i] != nil` in its argument check but
